@@ -81,7 +81,7 @@ def run(tier, seed):
     rep = C.Report("C17", tier, seed)
     gate = C.proof_gate("C17")
     rng = random.Random(seed)
-    ncases = 40 if tier == "quick" else 500
+    ncases = 40 if tier == "quick" else 3000
     with C.Scratch("c17") as scratch:
         from . import implenv
         m = implenv.setup(scratch)
